@@ -102,6 +102,7 @@ func judgeForCase(c forCase, rec *hx.Rec) string {
 		add(i.EmptyBody, "empty_body")
 		add(i.LabelInsideBody, "instruction_label_inside_a_body")
 		add(i.EquTwoLevelsDeep, "equ_defined_two_levels_deep")
+		add(i.LabelsInDeadBlock, "labelled_blocks_inside_a_zero_count_block")
 		add(i.EquByCounter, "equ_defined_in_one_copy_chosen_by_the_count_variable")
 		add(i.Nested, "nested")
 		add(i.ZeroCount, "zero_count")
